@@ -825,6 +825,8 @@ func (l *lexer) scanArithExpr(pos ast.Pos) int {
 			// operator
 			if l.scanOp(r) == RAE {
 				l.lit()
+				// a comment behind it is a trailing one
+				l.tokLine = l.line
 				return RAE
 			}
 			l.b.WriteByte(byte(r))
